@@ -290,7 +290,7 @@ Progress(run) == \A i \in 1..Len(run.steps) : run.steps[i].to > run.steps[i].fro
 Sig(str) == LET ds == SelectSeq(Chars(str), LAMBDA c : c \in {"0", "1", "2", "3", "4", "5", "6", "7", "8", "9"})
                 nz == {i \in 1..Len(ds) : ds[i] # "0"}
             IN IF nz = {} THEN 0 ELSE Len(ds) - (CHOOSE i \in nz : \A j \in nz : i <= j) + 1
-MaskNums(q, ref) == IF Len(q) # Len(ref) THEN q ELSE [i \in 1..Len(q) |-> IF Sig(ref[i]) >= 16 THEN "<long>" ELSE q[i]]
+MaskNums(q, ref) == IF Len(q) # Len(ref) THEN q ELSE [i \in 1..Len(q) |-> IF Sig(ref[i]) >= 16 \/ Len(ref[i]) > 300 THEN "<long>" ELSE q[i]]
 MaskN(n, ref) == IF n.kind # ref.kind THEN n
                  ELSE CASE n.kind = "term" -> n
                         [] n.kind = "sentence" -> [n EXCEPT !.v.tr = MaskNums(@, ref.v.tr)]
